@@ -19,6 +19,11 @@ R14.6 unsafe inventory: outside inner.rs every unsafe operation is a call of one
       constructors or of Table::get_mut (no transmute, no raw pointers, no foreign unsafe function).
 R14.5 single visit: in every step of every `*_mut` traversal `get_mut` is applied only to the index (indices) of the entry
       popped in this step — one per table — so, the arena being a tree (C15), no slot is mutably borrowed twice.
+R14.9 disjoint handles: every safe function that returns two or more mutable handles (found by signature: `split`) is
+      interpreted on all positions (real node, virtual position on an edge); on every path the handles it returns sit at
+      pairwise non-overlapping sub-tries — distinct nodes, none an ancestor of another, none at the consumed view's own node.
+      Two handles over one node give two `&mut` to the same entries from safe code.  Code the interpreter cannot follow is
+      reported (fail closed).
 Not decided: the schedule clause (concurrent = sequential) beyond disjointness + the auto-trait bounds; aliasing-model UB.
 """
 import shutil
@@ -42,6 +47,7 @@ def declare(rep):
     rep.rule("R14.8", "arena primitives: index/index_mut index the node vector with the given index; get_mut bounds-checks before offsetting by exactly that index")
     rep.rule("R14.7", "a function borrowing a mutable handle returns nothing tied to the handle's own lifetime")
     rep.rule("R14.6", "outside inner.rs the only unsafe operations are the crate's own handle constructors and Table::get_mut")
+    rep.rule("R14.9", "a function returning several mutable handles places them at pairwise non-overlapping sub-tries on every path")
     rep.rule("R14.5", "get_mut only on the indices of the entry popped in the same step, one per table")
 
 
@@ -132,6 +138,66 @@ def handle_producer(F, cf, mut):
         return None
     out = F.types[cf["output"]]["s"]
     return adt if adt.split("::")[-1] in out or "Self" in out else None
+
+
+def multi_handle_fns(F, mut):
+    """safe functions whose return type mentions a mutable handle type at least twice (a tuple / array of handles)"""
+    import re
+    out = []
+    for f in F.lib_fns():
+        if f.get("unsafe") or not (f.get("exported") or f.get("reachable")):
+            continue
+        s = F.types[f["output"]]["s"]
+        if any(len(re.findall(r"(?<![A-Za-z0-9_])%s<" % re.escape(a.split("::")[-1]), s)) >= 2 for a in mut):
+            out.append(f)
+    return out
+
+
+def overlapping(a, b):
+    """slot keys name paths from the view's node (`x`, `x.l`, `x.r.l`): two sub-tries overlap iff one key extends the other"""
+    return a == b or a.startswith(b + ".") or b.startswith(a + ".")
+
+
+def disjoint_handles(ctx, rep, cfg, F, mut):
+    from ..absint import TupleV
+    from . import c11, c12
+    fns = multi_handle_fns(F, mut)
+    rep.floor("functions returning several mutable handles (%s)" % cfg, len(fns), 1)
+    n = both = 0
+    for f in fns:
+        short = F.short_of[f["path"]]
+        paths = ctx.paths(F, short, c11.OPTS)
+        C.report_unrecognised(rep, "R14.9", short, paths, F)
+        for p in C.complete(paths):
+            n += 1
+            res = p.result[1]
+            cells = [c.value for c in res.cells] if isinstance(res, TupleV) else [res]
+            locs = []
+            opaque = False
+            for r in cells:
+                hit, loc = c12.outcome(r)
+                if hit == "hit":
+                    if loc is None:
+                        opaque = True
+                    else:
+                        locs.append(str(loc[1]).replace("?", ""))
+                elif hit == "?":
+                    opaque = True
+            ins = C.inputs_str(p, 10)
+            if opaque:
+                rep.bad("R14.9", short, "position-unknown", "%s returns a mutable handle whose position the interpreter cannot name (result %s; inputs: %s)"
+                        % (short, repr(res)[:160], ins), kind="unrecognised", config=cfg)
+                continue
+            clash = [(a, b) for i, a in enumerate(locs) for b in locs[i + 1:] if overlapping(a, b)]
+            if clash:
+                rep.bad("R14.9", short, "overlap", "%s hands out two mutable handles over overlapping sub-tries (nodes %s and %s): both reach the same "
+                        "entries mutably from safe code (inputs: %s)" % (short, clash[0][0], clash[0][1], ins), config=cfg)
+                continue
+            if len(locs) >= 2:
+                both += 1
+            rep.ok("R14.9", short, "%d handles, disjoint" % len(locs), sample={"fn": short, "positions": locs, "inputs": ins} if len(locs) >= 2 and both == 1 else None)
+    rep.floor("multi-handle paths interpreted (%s)" % cfg, n, 4)
+    rep.floor("paths on which two handles are returned (%s)" % cfg, both, 1)
 
 
 def run_config(ctx, rep, cfg, F):
@@ -320,6 +386,8 @@ def run_config(ctx, rep, cfg, F):
                     rep.bad("R14.5", short, "get_mut-foreign-index", "%s applies get_mut to %s, not only to the popped node" % (short, idxs), config=cfg)
     rep.ok("R14.5", "mutable traversals", "get_mut on popped indices only")
     rep.floor("mutable traversal steps checked (%s)" % cfg, n_steps, 1000)
+    # ---- R14.9
+    disjoint_handles(ctx, rep, cfg, F, mut)
     # ---- R14.1
     if cfg == "default":
         raw, info = extract.extract_one("default-witness", [], repo=ctx.repo, keep_target=True)
